@@ -7,7 +7,7 @@ export GOFLAGS=-mod=mod GOPROXY=off GOSUMDB=off GOTOOLCHAIN=local
 wt=$(mktemp -d /tmp/sc-XXXXXX); rmdir $wt
 git -C /repo worktree add -q --detach $wt HEAD || exit 2
 trap 'git -C /repo worktree remove --force '$wt' 2>/dev/null; rm -rf '$wt EXIT
-cp "$out/demo_test.go" "$wt/$dest"
+mkdir -p "$(dirname "$wt/$dest")"; cp "$out/demo_test.go" "$wt/$dest"
 cd $wt
 a=$(go test -vet=off -count=1 -timeout ${DEMO_TIMEOUT:-300s} ${DEMO_FLAGS:-} -run "$run" $pkg 2>&1); rca=$?
 echo "HEAD demo rc=$rca"; [ $rca -ne 0 ] && echo "$a" | tail -15
